@@ -242,3 +242,38 @@ func VerifTokenRef() {
 		}
 	}
 }
+
+func refHexC(c byte) bool { return refDigit(c) || c >= 'a' && c <= 'f' || c >= 'A' && c <= 'F' }
+
+// VerifEscape: identifier with a hex escape: `a\` + up to 8 symbolic bytes: an escape is
+// 1-6 hex digits and optionally ONE whitespace; what follows is lexed on its own.
+func VerifEscape() {
+	n := vRange("n", 1, vParam("N", 4))
+	tail := vBytes("b", n)
+	for i := range tail {
+		c := tail[i]
+		vAssume(refHexC(c) && (c == '0' || c == '2' || c == 'a' || c == 'F') || c == ' ' || c == 'x' || c == ';')
+	}
+	vAssume(refHexC(tail[0]))
+	ph := vRange("ph", 0, vParam("PH", 0)) // concrete leading hex digits, to reach the 6-digit limit with a short tail
+	src := []byte("a\\")
+	for k := 0; k < ph; k++ {
+		src = append(src, '0')
+	}
+	src = append(src, tail...)
+	// reference length of the identifier: a, backslash, hex run (max 6), one optional whitespace, then name characters
+	i := 0
+	for i < n && i+ph < 6 && refHexC(tail[i]) {
+		i++
+	}
+	if i < n && tail[i] == ' ' {
+		i++
+	}
+	for i < n && (refName(tail[i])) {
+		i++
+	}
+	tt, d, _ := vnLexOne(src)
+	vAssert(tt == IdentToken, "escape-ident-type")
+	vAssert(len(d) == 2+ph+i, "escape-ident-length")
+	vReach("escape")
+}
